@@ -5,5 +5,10 @@ cd "$(dirname "$0")" || exit 2
 mkdir -p .work evidence replays bin
 cp /repo/go.sum go.sum 2>/dev/null
 go build -o bin/vf ./cmd/vf || exit 2
-[ -d cmd/instr ] && { go build -o bin/instr ./cmd/instr || exit 2; }
+go build -o bin/instr ./cmd/instr || exit 2
+# warm the build cache for the instrumented and race builds
+./bin/instr -mode env -out .work/setup-env >/dev/null && go build -tags verif -overlay .work/setup-env/overlay.json -o .work/setup-vf-env ./cmd/vf
+./bin/instr -mode sched -out .work/setup-sched >/dev/null && go build -tags "verif sched" -overlay .work/setup-sched/overlay.json -o .work/setup-vf-sched ./cmd/vf
+go build -race -o .work/setup-vf-race ./cmd/vf
+rm -rf .work/setup-*
 echo "setup ok"
